@@ -208,17 +208,18 @@ template <typename C> static void obsConfig(std::string& o, const C& c) {
 static void obsNoConfig(std::string& o) { o += "-1,[]"; }
 
 static void statusCodes(std::string& o, void* instance);		// defined in main.inl (reads the plan data through the access probe)
-static void observe(std::string& o, PlanControl_& c) { obsNoConfig(o); o += ",-1,-1,-1,[],"; jtransitions(o, c.currentTransitions()); o += ",[]"; }
-static void observe(std::string& o, FSM::FullControl& c) { obsConfig(o, c); o += ",-1,-1,-1,[],[],"; statusCodes(o, c._()->probe->instance); }
-static void observe(std::string& o, FSM::EventControl& c) { obsConfig(o, c); o += ",-1,-1,-1,[],[],"; statusCodes(o, c._()->probe->instance); }
-static void observe(std::string& o, FSM::ConstControl& c) { obsConfig(o, c); o += ",-1,-1,-1,[],[],[]"; }
+static void requestedRegistry(std::string& o, void* instance);	// defined in main.inl (requested prongs, remain marks, orthogonal request bits)
+static void observe(std::string& o, PlanControl_& c) { obsNoConfig(o); o += ",-1,-1,-1,[],"; jtransitions(o, c.currentTransitions()); o += ",[],[]"; }
+static void observe(std::string& o, FSM::FullControl& c) { obsConfig(o, c); o += ",-1,-1,-1,[],[],"; statusCodes(o, c._()->probe->instance); o += ",[]"; }
+static void observe(std::string& o, FSM::EventControl& c) { obsConfig(o, c); o += ",-1,-1,-1,[],[],"; statusCodes(o, c._()->probe->instance); o += ",[]"; }
+static void observe(std::string& o, FSM::ConstControl& c) { obsConfig(o, c); o += ",-1,-1,-1,[],[],[],[]"; }
 static void observe(std::string& o, FSM::GuardControl& c) {
 	obsConfig(o, c); o += ',';
 	jint(o, maskOf([&](int s) { return c.isPendingEnter ((hfsm2::StateID) s); })); o += ',';
 	jint(o, maskOf([&](int s) { return c.isPendingExit  ((hfsm2::StateID) s); })); o += ',';
 	jint(o, maskOf([&](int s) { return c.isPendingChange((hfsm2::StateID) s); })); o += ',';
 	jtransitions(o, c.pendingTransitions()); o += ',';
-	jtransitions(o, c.currentTransitions()); o += ",[]";
+	jtransitions(o, c.currentTransitions()); o += ",[],"; requestedRegistry(o, c._()->probe->instance);
 }
 
 static const void* accessOf(void* instance, int id);		// defined after St
@@ -248,7 +249,7 @@ static void probeReport(const C& c, int id, int method) {
 	Probe& p = *c._()->probe;
 	if (p.quiet) return;
 	if (p.evCount++) p.ev += ',';
-	p.ev += '['; jint(p.ev, id + 1); p.ev += ",\""; p.ev += kMethodNames[method]; p.ev += "\",-1,[],-1,-1,-1,[],[],[]]";
+	p.ev += '['; jint(p.ev, id + 1); p.ev += ",\""; p.ev += kMethodNames[method]; p.ev += "\",-1,[],-1,-1,-1,[],[],[],[]]";
 }
 
 enum { M_SELECT = 1, M_RANK, M_UTILITY, M_ENTRY_GUARD, M_ENTER, M_REENTER, M_PRE_UPDATE, M_UPDATE, M_POST_UPDATE,
